@@ -802,13 +802,19 @@ GeneralizedTime_compare(const asn_TYPE_descriptor_t *td, const void *aptr,
             } else {
                 return 1;
             }
-        } else if(afrac_digits == 0) {
-            return -1;
-        } else if(bfrac_digits == 0) {
-            return 1;
         } else {
-            double afrac = (double)afrac_value / afrac_digits;
-            double bfrac = (double)bfrac_value / bfrac_digits;
+            /*
+             * Compare the fractions as numbers: value / 10^digits,
+             * so that .5 == .50 == .500 and .25 < .3 (no fraction is .0).
+             * Both quotients are correctly rounded, the scales are exact.
+             */
+            double ascale = 1, bscale = 1;
+            double afrac, bfrac;
+            int i;
+            for(i = 0; i < afrac_digits; i++) ascale *= 10;
+            for(i = 0; i < bfrac_digits; i++) bscale *= 10;
+            afrac = (double)afrac_value / ascale;
+            bfrac = (double)bfrac_value / bscale;
             if(afrac < bfrac) {
                 return -1;
             } else if(afrac > bfrac) {
